@@ -620,7 +620,7 @@ def run(spec, out):
                                "alias-dupname", "alias-dupsym", "alias-space", "scale-dupname", "scale-space", "scale-badzero", "dimderive-dupname",
                                "prefix-dupname", "prefix-dupsym", "equals-self", "equals-zero", "define-badsymboltype", "dimdefine-dupname",
                                "prefix-dupname-identity", "ownname-derive-dupsym", "ownname-derive-space", "ownname-alias-dupsym", "ownname-alias-space",
-                               "symbolonly-alias-dupsym", "symbolonly-alias-space", "dimctor-dupname", "prefix-rename", "prefix-resymbol", "scale-foreign-zero", "wrong-kind-of-argument", "wrong-kind-of-argument"])
+                               "symbolonly-alias-dupsym", "symbolonly-alias-space", "dimctor-dupname", "prefix-rename", "prefix-resymbol", "scale-foreign-zero", "wrong-kind-of-argument", "wrong-kind-of-argument", "scale-prefixed-zero"])
             dup_n, dup_s = rng.choice(unit_names), rng.choice(unit_symbols)
             target = rng.choice(my_units) if my_units else None
             anon = None
@@ -667,6 +667,28 @@ def run(spec, out):
                     expect_fail("Dimension.scale", "symbol with space", "fresh", lambda: measured.Temperature.scale(zero, fresh("zqn"), fresh("zq s")))
             elif kind == "scale-badzero":
                 expect_fail("Dimension.scale", "zero point of wrong type", "fresh", lambda: measured.Temperature.scale(273.15, fresh("zqn"), fresh("zqs")))
+            elif kind == "scale-prefixed-zero":
+                # a zero point written in a prefixed unit (273150 mK), or in a compound one: the library may take it or refuse
+                # it - a refusal leaves every registry as it was, an acceptance binds name and symbol
+                kelvin = Unit._by_name.get("kelvin")
+                if kelvin is not None:
+                    pz = rng.choice([p for p in Prefix._by_name.values() if p.name in ("milli", "kilo", "micro")] or [measured.IdentityPrefix])
+                    n0, s0 = fresh("zqpz"), fresh("zqpzs")
+                    before = snapshot()
+                    try:
+                        made = measured.Temperature.scale(rng.choice([273150, 100.5]) * (pz * kelvin), n0, s0)
+                    except Exception as e:
+                        count("failing_calls/Dimension.scale/zero point in a prefixed unit")
+                        count("definition_calls_raised")
+                        changed = diff(before, snapshot())
+                        if changed:
+                            violation("C19:failed-call-changed-registry:Dimension.scale:zero point in a prefixed unit",
+                                      f"Dimension.scale with a zero point in {pz.name}kelvin raised {type(e).__name__} but changed {changed}", {"label": "Dimension.scale"})
+                    else:
+                        count("successful_calls/Dimension.scale/zero point in a prefixed unit")
+                        problem = unit_bound(made, n0, s0)(made)
+                        if problem:
+                            violation("C19:declared-name-not-bound:Dimension.scale:prefixed-zero", f"Dimension.scale with a prefixed zero point: {problem}", {})
             elif kind == "wrong-kind-of-argument":
                 # the everyday mix-ups: a unit where its dimension was meant, the arguments the wrong way round, a None handed on
                 # from a lookup with a typo, a bare number where a quantity was meant.  These calls raise (AttributeError /
